@@ -88,6 +88,12 @@ func NewRun(prop, tier string) *Run {
 	r.cur = make([]atomic.Value, w)
 	r.tick = make([]uint64, w)
 	r.busy = make([]int32, w)
+	// replays of earlier runs of this property are stale
+	if old, _ := filepath.Glob(filepath.Join(Root, "replays", prop+"-*.json")); len(old) > 0 {
+		for _, f := range old {
+			os.Remove(f)
+		}
+	}
 	r.loadKnown()
 	go r.watchdog()
 	return r
